@@ -463,8 +463,37 @@ pub fn generate(tier: &str, seed: u64) -> Vec<String> {
     out
 }
 
+/// values whose lengths sit on and around the page size (direct I/O pads to whole pages and trims afterwards): growing and
+/// SHRINKING full rewrites and partial writes, size / suffix reads / whole reads after each
+pub fn gen_case_pages(rng: &mut Rng, kind: &str, out: &mut Vec<String>) {
+    out.push(format!("c08 cfg store={}", kind));
+    let keys = ["a/c/0", "b"];
+    let lens = [0usize, 1, 4095, 4096, 4097, 8192, 8193, 12288];
+    for _ in 0..rng.range(6, 10) {
+        let k = *rng.pick(&keys);
+        if rng.chance(1, 5) {
+            let off = *rng.pick(&[0u64, 4095, 4096, 8192]);
+            let ln = *rng.pick(&[1usize, 4096, 4097]);
+            out.push(format!("c08 op setp kov={}@{}={}", k, off, hex(&rng.bytes(ln))));
+        } else {
+            let n = *rng.pick(&lens);
+            // a recognisable value: its own length in every byte position modulo 251, so that a stale tail is visible
+            let v: Vec<u8> = (0..n).map(|i| ((i + n) % 251) as u8).collect();
+            out.push(format!("c08 op set k={} v={}", k, hex(&v)));
+        }
+        out.push(format!("c08 op size k={}", k));
+        out.push(format!("c08 op getp k={} r=s3,f4094:4", k));
+        if rng.chance(1, 3) { out.push(format!("c08 op get k={}", k)); }
+    }
+    out.push("c08 op sizep p=~".to_string());
+    for k in keys { out.push(format!("c08 op get k={}", k)); }
+}
+
 /// extra cases for the filesystem kinds: emptied nested directories and clashing key sets
 pub fn gen_fs_extra(rng: &mut Rng, kind: &str, n: usize, out: &mut Vec<String>) {
+    // (own stream) page-sized values
+    let mut rp = Rng::new(0xC08_9A6E ^ n as u64 ^ (kind.len() as u64) << 8);
+    for _ in 0..(if n > 10 { 12 } else { 3 }) { gen_case_pages(&mut rp, kind, out); }
     for i in 0..n {
         if i % 4 == 0 { gen_case_emptied(rng, kind, out); }
         let nops = rng.range(6, 40) as usize;
